@@ -100,6 +100,14 @@ func (e routeEngine) Corpus() []Case {
 			// a path registered under all nine methods, asked with a method rux does not know: 405 with nine allowed methods
 			{Ops: []string{"new 4 0 -", regOp(1, nineMethods, "/all/{id}", false), regOp(2, nineMethods, "/fixed", false), regOp(3, []string{g}, "/one", false),
 				q("PURGE", "/fixed"), q("PURGE", "/all/3"), sv("PURGE", "/all/3"), sv("", "/fixed"), q("get ", "/all/x"), q(g, "/fixed"), q("PURGE", "/one"), sv("PURGE", "/none")}, Tag: "corpus-all-methods"},
+			// an optional last slash `[/]`: the pattern stays a dynamic route (an earlier dynamic route for the same path wins,
+			// an earlier static route is not replaced), with and without StrictLastSlash
+			{Ops: []string{"new 0 0 -", regOp(1, nil, "/{name}", false), regOp(2, nil, "/users[/]", false), regOp(3, nil, "/about", false), regOp(4, nil, "/about[/]", false), regOp(5, nil, "/u/{id}[/]", false),
+				q(g, "/users"), q(g, "/users/"), q(g, "/about"), q(g, "/about/"), q(g, "/u/7"), q(g, "/u/7/"), sv(g, "/users"), sv(g, "/about")}, Tag: "corpus-optional-slash"},
+			{Ops: []string{"new 1 0 -", regOp(1, nil, "/{name}", false), regOp(2, nil, "/users[/]", false), regOp(3, nil, "/about", false), regOp(4, nil, "/about[/]", false),
+				q(g, "/users"), q(g, "/users/"), q(g, "/about"), q(g, "/about/"), sv(g, "/users/"), sv(g, "/about/")}, Tag: "corpus-optional-slash"},
+			{Ops: []string{"new 0 0 -", regOp(1, nil, "/users[/]", false), regOp(2, nil, "/{name}", false), regOp(3, nil, "/about[/]", false), regOp(4, nil, "/about", false),
+				q(g, "/users"), q(g, "/about"), q(g, "/zzz"), sv(g, "/users"), sv(g, "/about")}, Tag: "corpus-optional-slash"},
 			// F3: white-space only paths; request method strings of all kinds
 			{Ops: []string{"new 4 0 -", regOp(1, nil, "/", false), q(g, "  "), q(g, ""), q("", "/"), q("get", "/"), q("GE", "/"), sv(" ", "\t")}},
 		}, raCorpus("route")...)
